@@ -173,21 +173,21 @@ func dischargeAll(obs []*Obligation, workdir string, tlim int, par int, only str
 			// relevance slices first: smaller contexts prove most
 			// obligations quickly; the full query is the fallback
 			if !ob.ExpectSat && ob.raw == "" && !ob.ShortLimit && os.Getenv("GOVC_NOSLICE") == "" {
-				done := false
-				for lvl := 1; lvl <= 2 && !done; lvl++ {
-					qs := ob.QueryLevel(lvl)
-					if len(qs) == len(q) {
-						continue
-					}
-					st, sv, out, ms := runPortfolio(qs, workdir, i*10+lvl, 10, only)
-					if st == "unsat" {
-						res[i] = Result{Ob: ob, Status: st, Solver: sv + fmt.Sprintf("/slice%d", lvl), Millis: ms, Output: out, SMTBytes: len(qs)}
-						done = true
-					}
-				}
-				if done {
+				if trySlices(ob, q, workdir, i, 4, only, res) {
 					return
 				}
+				// full context, then (last resort, for slices that need more
+				// than the short limit on a loaded machine) the slices again
+				st, sv, out, ms := runPortfolio(q, workdir, i, tl, on)
+				if st == "unsat" {
+					res[i] = Result{Ob: ob, Status: st, Solver: sv, Millis: ms, Output: out, SMTBytes: len(q)}
+					return
+				}
+				if trySlices(ob, q, workdir, i, 15, only, res) {
+					return
+				}
+				res[i] = Result{Ob: ob, Status: st, Solver: sv, Millis: ms, Output: out, SMTBytes: len(q)}
+				return
 			}
 			if ob.ShortLimit {
 				tl = 3
@@ -215,6 +215,23 @@ func dischargeAll(obs []*Obligation, workdir string, tlim int, par int, only str
 	}
 	wg.Wait()
 	return res
+}
+
+// trySlices tries the relevance slices of an obligation (smaller contexts,
+// always sound to use) and records the result when one of them is proved.
+func trySlices(ob *Obligation, q, workdir string, i, limit int, only string, res []Result) bool {
+	for lvl := 1; lvl <= 2; lvl++ {
+		qs := ob.QueryLevel(lvl)
+		if len(qs) == len(q) {
+			continue
+		}
+		st, sv, out, ms := runPortfolio(qs, workdir, i*10+lvl, limit, only)
+		if st == "unsat" {
+			res[i] = Result{Ob: ob, Status: st, Solver: sv + fmt.Sprintf("/slice%d", lvl), Millis: ms, Output: out, SMTBytes: len(qs)}
+			return true
+		}
+	}
+	return false
 }
 
 // small helpers to build s-expressions
